@@ -37,7 +37,8 @@ MANIFEST = {
     'technique': ('dispatch-table totality of ParameterValue.cast against the ExternalType enum, '
                   'guard-dominates-emission rules over the CFG of the external-value traversal, '
                   'regex-AST vs format-string skeleton comparison, sort-key check'
-                  '; member-wise evaluation of ParameterValue.cast; path-condition truth tables for the conditional-children walk; regex/format skeleton agreement through module constants and f-strings'),
+                  '; member-wise evaluation of ParameterValue.cast; path-condition truth tables for the conditional-children walk; regex/format skeleton agreement through module constants and f-strings'
+                  '; path-condition check of the discrete external type; role-based work-list analysis; external type written under presence only'),
     'level_text': (
         'Static: the cast table is total and each arm uses the matching accessor; builders '
         'declare the documented external types; children are emitted only under their active '
